@@ -189,6 +189,15 @@ func c11Multi(c *Ctx, cond string, tags []string, cands []string, rg *mon.Rng, l
 			local["left-as-is"]++
 			return
 		}
+		var printed influxql.Expr
+		if pe, perr := influxql.ParseExpr(sel.Condition.String()); perr == nil {
+			printed = pe
+		} else {
+			viol = func() {
+				r.Violation("language-changed", map[string]interface{}{"sub": "multi", "input": text, "cond": cond, "why": fmt.Sprintf("the rewritten condition prints as %q, which does not parse: %v", trunc(sel.Condition.String(), 300), perr)})
+			}
+			return
+		}
 		// value pool: every literal the rewrite put into the condition, the short
 		// strings over the alphabet, then random longer ones; two tags, so all
 		// pairs from the pool are tried (sampled when there are too many)
@@ -214,6 +223,17 @@ func c11Multi(c *Ctx, cond string, tags []string, cands []string, rg *mon.Rng, l
 			}
 			ea := influxql.ValuerEval{Valuer: c11Valuer(m)}
 			a, b := ea.EvalBool(orig), ea.EvalBool(sel.Condition)
+			if a == b && printed != nil {
+				// the rewritten condition as the next reader of its text sees it
+				// (SetTimeRange, a log, a remote node): printed and parsed again
+				if b2 := ea.EvalBool(printed); b2 != b {
+					mm := m
+					viol = func() {
+						r.Violation("language-changed", map[string]interface{}{"sub": "multi", "input": text, "cond": cond, "why": fmt.Sprintf("values %q: the rewritten condition evaluates to %v, its printed form %q parsed again to %v", mm, b, trunc(sel.Condition.String(), 300), b2)})
+					}
+					return
+				}
+			}
 			if a != b {
 				nl := false
 				for _, v := range m {
@@ -429,8 +449,15 @@ func checkC11(c *Ctx) (string, bool, []string) {
 		}
 		n := rg.Range(2, 4)
 		cond := pred()
+		if rg.P(0.15) {
+			cond += rg.Pick(" = false", " = true", " != true")
+			local["multi.test-compared-with-a-boolean"]++
+		}
 		for k := 1; k < n; k++ {
 			nx := pred()
+			if rg.P(0.15) {
+				nx += rg.Pick(" = false", " = true", " != false")
+			}
 			if rg.P(0.4) {
 				nx = "(" + nx + " " + rg.Pick("AND", "OR") + " " + pred() + ")"
 			}
